@@ -43,6 +43,8 @@ class Glob:
         self.CONN_STATE = z3.Int("CONN_STATE")
         self.AUTHENTICATED = z3.IntVal(enum_id("ConnectionState::Authenticated"))
         self.IN_TRANSACTION = z3.Bool("IN_TRANSACTION")
+        self.inline = []          # regexes of callee names that are evaluated by inlining their MIR
+        self.inline_depth = 0
 
 
 def is_enumish(t):
@@ -50,7 +52,8 @@ def is_enumish(t):
 
 
 class Enc:
-    def __init__(self, fn, funcs=None, glob=None):
+    def __init__(self, fn, funcs=None, glob=None, bind=None):
+        self.bind = bind or {}
         self.fn = fn
         self.funcs = funcs or {}
         self.glob = glob or Glob()
@@ -320,6 +323,27 @@ class Enc:
             cv = self.closure_bool(m.group(1))
             if cv is not None:
                 return ("optbool", self.fresh("bool", "conn_exists_bb%d" % bb), cv)
+        # small pure functions of the crate named in glob.inline: evaluated by encoding their body
+        if self.glob.inline and self.glob.inline_depth < 3 and any(re.search(x, callee) for x in self.glob.inline):
+            last = callee.split("::")[-1]
+            cands = [f for n, f in self.funcs.items() if n.split("::")[-1] == last and not n.startswith("const ")
+                     and len(f.args) == len(args)]
+            if len(cands) == 1:
+                bind = {}
+                for formal, actual in zip(cands[0].args, a):
+                    if actual is not None:
+                        bind[formal] = actual
+                self.glob.inline_depth += 1
+                try:
+                    e = Enc(cands[0], self.funcs, self.glob, bind=bind)
+                finally:
+                    self.glob.inline_depth -= 1
+                rets = [b2 for b2 in e.order if e.blocks[b2].term and e.blocks[b2].term["kind"] == "return"]
+                if len(rets) == 1:
+                    v = e.out_state[rets[0]].get("_0")
+                    if v is not None:
+                        self.extra.extend(e.extra)
+                        return v
         if re.search(r"Option::<bool>::unwrap_or$", callee) and len(args) == 2:
             ml = re.match(r"^(?:copy |move )?(_\d+)$", args[0].strip())
             ob = st.get("opt:" + ml.group(1)) if ml else None
@@ -398,7 +422,10 @@ class Enc:
             if b == 0:
                 for a in self.fn.args:
                     srt = self.sort_of_type(self.ltype(a))
-                    if srt:
+                    if a in self.bind:
+                        st[a] = self.bind[a]
+                        self.arg_terms[a] = st[a]
+                    elif srt:
                         st[a] = self.fresh(srt, "arg" + a)
                         self.arg_terms[a] = st[a]
             self.val[b] = dict(st)
@@ -512,3 +539,14 @@ class Enc:
                 if pattern is None or re.search(pattern, t["callee"]):
                     out.append((b, t))
         return out
+
+    def debug_value(self, name):
+        """term of the (single-assignment) local bound to source variable `name`, or None"""
+        place = self.fn.debug.get(name)
+        if not place or not re.match(r"^_\d+$", place):
+            return None
+        for b in self.order:
+            v = self.out_state[b].get(place)
+            if v is not None:
+                return v
+        return None
